@@ -99,9 +99,9 @@ def mixed_keys(m, v):
     return len(kinds) > 1
 
 
-def gen_steps(rng, tok):
+def gen_steps(rng, tok, lengths=(1, 1, 2, 2, 3, 4, 6), p_raise=0.0):
     steps = []
-    for _ in range(rng.choice([1, 1, 2, 2, 3, 4, 6])):
+    for _ in range(rng.choice(lengths)):
         kind = rng.choice([0, 1, 1, 1, 2])
         if rng.random() < 0.4:
             mis = None
@@ -112,25 +112,83 @@ def gen_steps(rng, tok):
                 mis.append([n, tok[0]])
                 tok[0] += 1
         steps.append([kind, mis, rng.random() < 0.3])
+    if rng.random() < p_raise:
+        # mostly the last statement of the function; sometimes earlier (what follows must not run)
+        at = len(steps) if rng.random() < 0.75 else rng.randint(0, len(steps))
+        steps.insert(at, [3, rng.randrange(5), rng.random() < 0.5])
     return steps
+
+
+FIELDS = ("setup", "body", "teardown")
+
+
+def prog(pre=(), setup=(), body=(), teardown=(), cleanups=()):
+    return {"k": "test", "pre": [list(d) for d in pre], "setup": list(setup), "body": list(body),
+            "teardown": list(teardown), "cleanups": [list(c) for c in cleanups]}
+
+
+def raises(st):
+    return st[0] == 3 or (st[0] in (0, 2) and st[1] is not None)
+
+
+def executed(stmts):
+    out = []
+    for st in stmts:
+        out.append(st)
+        if raises(st):
+            break
+    return out
+
+
+def in_f21(case):
+    """the class of inputs of known finding F21 (Spec.C07.finding_F21): setUp raises and an executed expectThat
+    mismatched.  Only used to decide which cases are generated; the verdict is Coq's."""
+    if not any(raises(st) for st in case["setup"]):
+        return False
+    ex = executed(case["setup"]) + [st for c in case["cleanups"] for st in executed(c)]
+    return any(st[0] == 1 and st[1] is not None for st in ex)
+
+
+def f21_registered():
+    """cases of the class F21 fail the statement on the unchanged tree; they are generated only once the finding is
+    listed in known_findings.json (its witness is then run by the framework on every run as well)"""
+    import json
+    import os
+    root = os.path.dirname(os.path.dirname(os.path.dirname(os.path.dirname(os.path.abspath(__file__)))))
+    try:
+        data = json.load(open(os.path.join(root, "known_findings.json")))
+    except (OSError, ValueError):
+        return False
+    return any(f.get("property") == "C07" and f.get("num") == 21 for f in data.get("findings", []))
 
 
 def gen_test(rng, tier):
     out = []
+    E, A, F = 1, 0, 2
     fixed = [
-        {"pre": [], "steps": [[0, None, False]]},
-        {"pre": [], "steps": [[0, [], False]]},
-        {"pre": [], "steps": [[1, [], False], [0, None, False]]},
-        {"pre": [["a", 1]], "steps": [[1, [["a", 2]], False], [1, [["a", 3], ["a-1", 4]], True], [0, [["a", 5]], False],
-                                      [1, [["b", 6]], False]]},
-        {"pre": [["Failed expectation", 1]], "steps": [[1, [["Failed expectation-1", 2]], False],
-                                                       [1, [["Failed expectation", 3]], False]]},
-        {"pre": [["a", 1], ["a-1", 2], ["a-2", 3]], "steps": [[2, [["a", 4]], False]]},
-        {"pre": [["a", 1], ["a-1", 2], ["a-2", 3]], "steps": [[0, [["a", 4], ["a-1", 5]], False]]},
-        {"pre": [], "steps": [[2, None, False], [1, [["traceback", 1]], False]]},
+        prog(body=[[A, None, False]]),
+        prog(body=[[A, [], False]]),
+        prog(body=[[E, [], False], [A, None, False]]),
+        prog(pre=[["a", 1]], body=[[E, [["a", 2]], False], [E, [["a", 3], ["a-1", 4]], True], [A, [["a", 5]], False],
+                                   [E, [["b", 6]], False]]),
+        prog(pre=[["Failed expectation", 1]], body=[[E, [["Failed expectation-1", 2]], False],
+                                                    [E, [["Failed expectation", 3]], False]]),
+        prog(pre=[["a", 1], ["a-1", 2], ["a-2", 3]], body=[[F, [["a", 4]], False]]),
+        prog(pre=[["a", 1], ["a-1", 2], ["a-2", 3]], body=[[A, [["a", 4], ["a-1", 5]], False]]),
+        prog(body=[[F, None, False], [E, [["traceback", 1]], False]]),
+        # a failed expectation, then the test goes on to skip / reach an expected failure / ...
+        prog(body=[[E, [["a", 1]], False], [3, 0, False]]),
+        prog(body=[[E, [], True], [3, 2, False]]),
+        prog(body=[[E, [["a", 1]], False]], teardown=[[3, 0, True]]),
+        prog(body=[[E, [["a", 1]], False]], cleanups=[[[3, 0, False]]]),
+        prog(body=[[3, 0, False]], cleanups=[[[E, [["a", 1]], False]]]),
+        prog(body=[[3, 3, False]], teardown=[[E, [["a", 1]], False], [A, [["a", 2]], False]]),
+        prog(pre=[["a", 1]], setup=[[E, [["a", 2]], False]], body=[[3, 0, False]], teardown=[[E, [["a", 3]], False]],
+             cleanups=[[[E, [["a", 4]], False], [3, 2, True]], [[A, [["a", 5]], False]]]),
+        prog(setup=[[3, 0, False]], body=[[E, [["a", 1]], False]], cleanups=[[[A, [["a", 2]], False]]]),
+        prog(setup=[[A, [["a", 1]], False]], cleanups=[[[3, 0, False]], [[3, 4, False]]]),
     ]
-    for f in fixed:
-        out.append(dict(f, k="test"))
+    out += fixed
     # exhaustive: every sequence of up to 3 statements over kind x {match, mismatch with detail "a"}, with/without pre "a"
     for n in range(1, 4):
         for combo in itertools.product([(k, m) for k in (0, 1, 2) for m in (False, True)], repeat=n):
@@ -140,14 +198,43 @@ def gen_test(rng, tier):
                 for k, m in combo:
                     steps.append([k, [["a", t]] if m else None, False])
                     t += 1
-                out.append({"k": "test", "pre": pre, "steps": steps})
-    for _ in range(500 if tier == "quick" else 8000):
+                out.append(prog(pre=pre, body=steps))
+    # exhaustive two-step histories: one statement (expectThat mismatching / matching, assertThat mismatching) in one
+    # of setUp, test method, tearDown, first / second cleanup, and one raise of each kind in one of the same places
+    # (after the statement when in the same function)
+    places = ["setup", "body", "teardown", 0, 1]
+    n = 0
+    for stmt in ([E, [["a", 2]], False], [E, None, False], [A, [["a", 2]], False]):
+        for pa in places:
+            for exc in range(5):
+                for pe in places:
+                    n += 1
+                    c = prog(pre=[["a", 1]], cleanups=[[], []])
+                    for place, st in ((pa, stmt), (pe, [3, exc, n % 2 == 0])):
+                        if isinstance(place, int):
+                            c["cleanups"][place].append(list(st))
+                        else:
+                            c[place].append(list(st))
+                    out.append(c)
+    for _ in range(700 if tier == "quick" else 10000):
         tok = [1]
         pre = []
         for n in rng.sample(NAMES, rng.choice([0, 0, 1, 2, 3])):
             pre.append([n, tok[0]])
             tok[0] += 1
-        out.append({"k": "test", "pre": pre, "steps": gen_steps(rng, tok)})
+        plain = rng.random() < 0.25          # a test method only, nothing else raises
+        pr = 0.0 if plain else 0.35
+        c = prog(pre=pre, body=gen_steps(rng, tok, p_raise=pr))
+        if not plain:
+            if rng.random() < 0.3:
+                c["setup"] = gen_steps(rng, tok, (0, 1, 1, 2), p_raise=0.25)
+            if rng.random() < 0.5:
+                c["teardown"] = gen_steps(rng, tok, (0, 1, 1, 2), p_raise=0.4)
+            for _ in range(rng.choice([0, 0, 1, 1, 2, 3])):
+                c["cleanups"].append(gen_steps(rng, tok, (0, 1, 1, 2), p_raise=0.4))
+        out.append(c)
+    if not f21_registered():
+        out = [c for c in out if not in_f21(c)]
     return out
 
 
@@ -165,17 +252,29 @@ def shrink(case):
             if c not in (39, 97):
                 yield dict(case, s=s[:i] + [97] + s[i + 1:])
     elif k == "test":
-        st = case["steps"]
-        for i in range(len(st)):
-            yield dict(case, steps=st[:i] + st[i + 1:])
+        def variants(st):
+            for i in range(len(st)):
+                yield st[:i] + st[i + 1:]
+            for i, (kind, mis, flag) in enumerate(st):
+                if kind != 3 and mis:
+                    for j in range(len(mis)):
+                        yield st[:i] + [[kind, mis[:j] + mis[j + 1:], flag]] + st[i + 1:]
+                if flag:
+                    yield st[:i] + [[kind, mis, False]] + st[i + 1:]
+        cl = case["cleanups"]
+        for i in range(len(cl)):
+            yield dict(case, cleanups=cl[:i] + cl[i + 1:])
+        for f in FIELDS:
+            if case[f]:
+                yield dict(case, **{f: []})
+        for f in FIELDS:
+            for v in variants(case[f]):
+                yield dict(case, **{f: v})
+        for i in range(len(cl)):
+            for v in variants(cl[i]):
+                yield dict(case, cleanups=cl[:i] + [v] + cl[i + 1:])
         for i in range(len(case["pre"])):
             yield dict(case, pre=case["pre"][:i] + case["pre"][i + 1:])
-        for i, (kind, mis, msg) in enumerate(st):
-            if mis:
-                for j in range(len(mis)):
-                    yield dict(case, steps=st[:i] + [[kind, mis[:j] + mis[j + 1:], msg]] + st[i + 1:])
-            if msg:
-                yield dict(case, steps=st[:i] + [[kind, mis, False]] + st[i + 1:])
     elif k == "dexpr":
         from . import gen_c06 as g
         for c in g.shrink({"m": case["m"], "v": case["v"], "leafdefs": case.get("leafdefs", ())}):
@@ -186,7 +285,8 @@ def shrink(case):
 
 def distribution(cases):
     d = {"kind": {}, "repr_len": {}, "repr_bytes": 0, "repr_ml": {}, "desc_names": 0, "test_steps": {},
-         "dexpr_unorderable_dict_keys": 0}
+         "test_raise": {}, "test_failed_expectation_and_nonfailure_exception": 0,
+         "test_with_setup_teardown_or_cleanups": 0, "dexpr_unorderable_dict_keys": 0}
     names = set()
     for c in cases:
         k = c["k"]
@@ -202,7 +302,22 @@ def distribution(cases):
         elif k == "dexpr":
             d["dexpr_unorderable_dict_keys"] += mixed_keys(c["m"], c["v"])
         elif k == "test":
-            n = len(c["steps"])
+            stmts = c["setup"] + c["body"] + c["teardown"] + [st for cl in c["cleanups"] for st in cl]
+            n = len(stmts)
             d["test_steps"][n] = d["test_steps"].get(n, 0) + 1
+            ex = executed(c["setup"])
+            if not any(raises(st) for st in c["setup"]):
+                ex = ex + executed(c["body"]) + executed(c["teardown"])
+            ex = ex + [st for cl in c["cleanups"] for st in executed(cl)]
+            failed = any(st[0] == 1 and st[1] is not None for st in ex)
+            for st in ex:
+                if st[0] == 3:
+                    key = ["skip", "fail", "xfail", "uxsuccess", "error"][st[1]]
+                    d["test_raise"][key] = d["test_raise"].get(key, 0) + 1
+                    if failed and st[1] in (0, 2, 3):
+                        d["test_failed_expectation_and_nonfailure_exception"] += 1
+                        break
+            if c["teardown"] or c["cleanups"] or c["setup"]:
+                d["test_with_setup_teardown_or_cleanups"] += 1
     d["desc_names"] = len(names)
     return d
